@@ -204,6 +204,11 @@ def _cap_seeds(cbody, k):
 
 def _closure(F, rep, short, cb, cap_of):
     where = "%s:%s" % (cb.file, cb.line)
+    # F9: the wrapper refuses nothing on its own — every failure status comes from zstd, the container code or the cursor on
+    # the caller's buffer (a "cannot fit anyway" pre-check turns adequate buffers into failures)
+    from .. import err as _err
+    own = _err.own_errors(F, cb)
+    rep.add("F9", "no-error-of-its-own:" + short, not own, where, "errors constructed by the wrapper body itself: %s" % own)
     # the env may only be used through field loads
     env_uses = [u for u in flow.uses(cb, 1)]
     bad_env = [u for u in env_uses if not (u[0] == "stmt" and u[3]["k"] == "assign" and u[3]["r"]["k"] in ("use", "ref"))]
